@@ -23,6 +23,21 @@ def app(prop, theorems, explanation, assumptions, facts=None):
 
 
 PROPS = {
+    "C09": app(
+        "C09",
+        ["C09_order_irrelevant", "C09_wf_init", "C09_wf_step", "C09_replicas_agree", "C09_map_ranges_pinned",
+         "C09_clock_calls_pinned", "C09_fork_overrides_pinned"],
+        "Theorem: every ABCI call of the model gives the same response and state for all iteration orders of all maps "
+        "ranged over (induction over histories; two replicas with independent orders agree). Facts regenerated from the "
+        "source pin the map-range sites and the clock/OS/randomness uses of package app. The real app is compared with the "
+        "model on generated histories; each history is additionally replayed in a second OS process (GOMAXPROCS=1, GOGC=20) "
+        "and several times in-process (Go randomises map iteration per range) with byte-wise comparison of the marshalled "
+        "ABCI responses and canonical state.",
+        ["Tendermint feeds both replicas the same call sequence",
+         "Go's map iteration is an arbitrary permutation of the entries",
+         "protobuf marshalling of equal responses is byte-identical within one binary"],
+        facts=["app"],
+    ),
     "C12": app(
         "C12",
         ["C12_diff_apply", "C12_updates_sorted", "C12_removals_present", "C12_order_independent", "C12_live",
